@@ -3,18 +3,20 @@
 
 from __future__ import annotations
 
+import asyncio
 import functools
 import inspect
 import json
-from contextlib import contextmanager
+from contextlib import asynccontextmanager
+from contextvars import ContextVar
 from pathlib import Path
 from typing import (
     Annotated,
     Any,
+    AsyncIterator,
     Awaitable,
     Callable,
     Generic,
-    Iterator,
     Protocol,
     TypeVar,
     cast,
@@ -387,6 +389,12 @@ def Resource(
     return _Resource(factory, cache)
 
 
+# Managers whose resolution scope the current task is inside (re-entrancy).
+_held_scopes: ContextVar[tuple[ResourceManager, ...]] = ContextVar(
+    "workflows_resource_held_scopes", default=()
+)
+
+
 class ResourceManager:
     """Manage resource lifecycles and caching across workflow steps.
 
@@ -401,27 +409,49 @@ class ResourceManager:
         self._resolving: list[str] = []  # Track resources being resolved in order
         self._resolution_cache: dict[str, Any] = {}
         self._resolution_depth = 0
+        # The bookkeeping above is shared by every task using this manager, so
+        # only one task at a time may be inside a resolution scope.
+        self._scope_lock: asyncio.Lock | None = None
+        self._scope_lock_loop: asyncio.AbstractEventLoop | None = None
 
-    @contextmanager
-    def resolution_scope(self) -> Iterator[None]:
-        """Scope non-cached resolution values to a single dependency graph."""
-        self._resolution_depth += 1
-        try:
+    def _get_scope_lock(self) -> asyncio.Lock:
+        # asyncio locks belong to one event loop; a manager may outlive a loop.
+        loop = asyncio.get_running_loop()
+        if self._scope_lock is None or self._scope_lock_loop is not loop:
+            self._scope_lock = asyncio.Lock()
+            self._scope_lock_loop = loop
+        return self._scope_lock
+
+    @asynccontextmanager
+    async def resolution_scope(self) -> AsyncIterator[None]:
+        """Scope non-cached resolution values to a single dependency graph.
+
+        Scopes of concurrent tasks are serialized: cycle detection and the scoped
+        cache would otherwise see the resolutions of other tasks. Entering a scope
+        again from inside one (same task) joins the enclosing scope.
+        """
+        held = _held_scopes.get()
+        if any(manager is self for manager in held):
             yield
-        finally:
-            self._resolution_depth -= 1
-            if self._resolution_depth == 0:
-                self._resolution_cache.clear()
+            return
+        async with self._get_scope_lock():
+            token = _held_scopes.set(held + (self,))
+            self._resolution_depth += 1
+            try:
+                yield
+            finally:
+                self._resolution_depth -= 1
+                if self._resolution_depth == 0:
+                    self._resolution_cache.clear()
+                _held_scopes.reset(token)
 
     async def set(self, name: str, val: Any) -> None:
         """Register a resource instance under a name."""
         self.resources.update({name: val})
 
     async def get(self, resource: ResourceDescriptor) -> Any:
-        if self._resolution_depth == 0:
-            with self.resolution_scope():
-                return await self._get(resource)
-        return await self._get(resource)
+        async with self.resolution_scope():
+            return await self._get(resource)
 
     async def _get(self, resource: ResourceDescriptor) -> Any:
         """Return a resource instance, honoring cache settings.
